@@ -52,7 +52,7 @@ def main():
         shutil.rmtree(tmp, ignore_errors=True)
         checks = {}
         for p in [pid] + extra:
-            for tier in (["quick", "thorough"] if True else ["quick"]):
+            for tier in (["quick"] if os.environ.get("SEEDCHECK_QUICK_ONLY") else ["quick", "thorough"]):
                 if tier == "thorough" and (checks.get(p, {}).get("quick", {}).get("exit") == 1) and not thorough:
                     continue
                 r = sh([os.environ.get("VERIF_SNAPSHOT", "/verif") + "/check", p, "--tier", tier, "--no-evidence"], env=dict(os.environ, VERIF_REPO=wt), timeout=7200)
